@@ -77,6 +77,11 @@ CHECKS.update({
          "Each of the five building blocks is judged on every call against its published definition / the model. Held = no violation outside the listed mechanisms.",
          "trusts O1/O3 and my reading of Definitions 2.1 and 4.2; listed findings mask further defects in their sub-families", "DESIGN §4 C19"),
 })
+CHECKS.update({
+ "C09": ("post-condition on the real transport_unconditional_counterfactual_query / transport_conditional_counterfactual_query: y0's own input validation is called first (rejected inputs counted, not judged); anything raised afterwards is a violation; answers (expression, event) evaluated on FAMILIES of exact random SCMs (target + per-domain copies re-drawn at the transport nodes, policy variables parent-free) with the returned event's values vs the target (conditional) probability of the QUERIED event; Zero refuted by witness families; C19's monitors ride on the inner calls",
+         "Totality after validation, correctness of answers on sampled families and the only-if clause of zero are decided per call. Held = no violation outside the listed mechanisms.",
+         "trusts O1/O2 and the domain-graph convention (policy variables lose incoming and bidirected edges); listed findings mask further defects in their sub-families", "DESIGN §4 C09"),
+})
 PLANNED = {}
 
 def main():
